@@ -53,9 +53,11 @@ def nx23(F, R):
         return
     rid = rets[0]
     detail = {"returned": show(rid, b)}
-    # the id is the key of an item of this graph's vertex store (found by find() or by a loop)
-    item = strip_load(rid[1]) if rid[0] == "field" and rid[2] == "(tuple)::0" else None
-    if item is None or item[0] != "item":
+    # the id is (computed from) an item of a search over this graph's vertex store: by find()/find_map(), by a loop, through
+    # filter / map / skip_while adaptors.  X stands for the store element (key, vertex) the search stopped at.
+    items = [x for x in walk(rid) if x[0] == "item" and iter_source(x[1]) is not None]
+    item = items[0] if items else None
+    if item is None:
         R.bad("NX2", "NX2/Sodg::next_id/not-a-store-search", b.where(), "cannot establish NX2: the returned id is not the key of an item of a search over the vertex store", detail)
         return
     src = iter_source(item[1])
@@ -63,30 +65,94 @@ def nx23(F, R):
     if src is None or strip_load(src)[0] != "field" or strip_load(src)[2] != "Sodg::vertices" or strip_load(strip_load(src)[1]) != ("param", 1):
         R.bad("NX2", "NX2/Sodg::next_id/search-not-over-own-store", b.where(), "the id search does not walk this graph's vertex store", detail)
         return
-    if [a for a, _ in ads if a not in ("filter",)]:
-        R.bad("NX2", "NX2/Sodg::next_id/search-restricted", b.where(), "the id search skips part of the store (%s)" % [a for a, _ in ads], detail)
-    # what is known about that item where the function returns
+    X = ("X",)
+    cur = X
     facts = set()
+    unknown = []
+
+    def closure_env(cl):
+        env = {}
+        for ui, uop in enumerate(cl[2]):
+            env[("upvar", ui)] = b.expr_local(uop[1], uop[2]) if uop[0] == "addr" else uop
+        return env
+    for an, ex in ads:
+        cl = strip_load(ex[0]) if ex else None
+        cbx = F.bodies.get(cl[1]) if cl is not None and cl[0] == "closure" else None
+        if an in ("copied", "cloned", "collect", "by_ref", "peekable", "fuse"):
+            continue
+        if cbx is None:
+            unknown.append(an)
+            continue
+        summ = pred_summary(cbx) if an in ("filter", "skip_while") else None
+        env = closure_env(cl)
+        env[("param", 2)] = cur
+        if an == "filter" and summ is not None and len(summ) == 1:
+            facts |= {unload(subst(f, env)) for f in summ[0]}
+        elif an == "skip_while" and summ is not None and len(summ) == 1 and len([f for f in summ[0] if "Level" not in repr(f)]) == 1:
+            # items are skipped while `key < bound`: on the ascending keys of the store this is the filter `key >= bound`
+            f0 = unload(subst([f for f in summ[0]][0], env))
+            keyside = f0[0] == "cmp" and f0[1] in ("<", "<=") and mentions(f0[2], lambda x: x == X) and not mentions(f0[3], lambda x: x == X)
+            if keyside:
+                facts.add(negate_fact(f0))
+            else:
+                unknown.append(an)
+        elif an == "map":
+            proj = closure_projection(b, cl)
+            if proj is not None:
+                cur = resimplify(unload(subst(proj, {("param", 2): cur})))
+            else:
+                unknown.append(an)
+        else:
+            unknown.append(an)
+    if unknown:
+        R.bad("NX2", "NX2/Sodg::next_id/search-restricted", b.where(), "the id search skips part of the store (%s)" % unknown, detail)
+    # what is known about the item where the function returns, in terms of X
+    rfacts = set()
     for r in b.returns:
         fs = b.facts_at((r, b.term_idx(r)))
-        facts = set(fs) if not facts else (facts & set(fs))
-    for an, ex in ads:   # predicates of filter adaptors hold of the item as well
-        cbx = F.bodies.get(strip_load(ex[0])[1]) if ex and strip_load(ex[0])[0] == "closure" else None
-        if cbx is not None:
-            for conj in pred_summary(cbx)[:1]:
-                facts |= {subst(f, {("param", 2): item}) for f in conj}
+        rfacts = set(fs) if not rfacts else (rfacts & set(fs))
     istr = strip_sites(item)
 
-    def of_item(e):
-        return mentions(strip_sites(e), lambda x: x == istr)
-    absent = any(f[0] == "in" and f[2] == frozenset([0]) and is_tag_of(f[1]) and of_item(f[1]) for f in facts)
-    bound = False
+    def to_x(e):
+        """rewrite the search item to its value in terms of the store element X"""
+        if not isinstance(e, tuple) or not e or isinstance(e, frozenset):
+            return e
+        if e[0] == "load":
+            return to_x(e[1])
+        if e[0] == "item" and strip_sites(e) == istr:
+            return cur
+        return tuple(to_x(x) if isinstance(x, tuple) and not isinstance(x, frozenset) else x for x in e)
+    for f in rfacts:
+        if mentions(strip_sites(f), lambda x: x == istr):
+            g = resimplify(to_x(f))
+            # keep the original load wrappers of the position operand for the pre-state test
+            facts.add((g, f))
+    xfacts = []
     for f in facts:
-        if f[0] == "cmp" and f[1] == "<=":
-            lo, hi = strip_load(f[2]), strip_load(f[3])
-            if hi[0] == "field" and hi[2] == "(tuple)::0" and of_item(hi) and is_prestate_position(f[2], b, raw):
+        xfacts.append(f if (len(f) == 2 and isinstance(f[0], tuple) and isinstance(f[1], tuple) and f[0] and f[0][0] in ("in", "notin", "cmp", "bool")) else (f, f))
+    rid_x = resimplify(to_x(rid))
+    key_x = ("field", X, "(tuple)::0")
+    if strip_sites(rid_x) != key_x:
+        R.bad("NX2", "NX2/Sodg::next_id/not-a-store-search", b.where(),
+              "cannot establish NX2: the returned id is not the key of the store element the search stopped at", dict(detail, in_terms_of_element=show(rid_x, b)))
+        return
+
+    def tag_of_x(e):
+        e = strip_load(e)
+        return e[0] == "field" and e[2] == "Vertex::branch" and strip_load(e[1]) == ("field", X, "(tuple)::1")
+
+    def key_of_x(e):
+        return strip_sites(strip_load(e)) == key_x
+    absent = any(g[0] == "in" and g[2] == frozenset([0]) and tag_of_x(g[1]) for g, _ in xfacts)
+    bound = False
+    for g, orig in xfacts:
+        if g[0] == "cmp" and g[1] == "<=" and key_of_x(g[3]):
+            # the lower bound must be the allocator position read before the search
+            lo = orig[2] if orig[0] == "cmp" and orig[1] == "<=" else g[2]
+            if is_prestate_position(lo, b, raw) or is_prestate_position(g[2], b, raw):
                 bound = True
-    shown = {"known about the item": [show(f, b) for f in sorted(facts, key=repr) if "Level" not in repr(f)][:8]}
+    facts = {g for g, _ in xfacts}
+    shown = {"known about the store element X the search stopped at": [show(f, b) for f in sorted(facts, key=repr) if "Level" not in repr(f)][:8]}
     if not absent:
         R.bad("NX2", "NX2/Sodg::next_id/predicate-no-absent-test", b.where(),
               "the slot whose key is returned is not tested to be absent (tag == 0): next_id() can return a present id", shown)
